@@ -264,6 +264,8 @@ def visit(
 
                 if result is SKIP or result is False:
                     if not is_leaving:
+                        if not stack:
+                            break
                         path_pop()
                         continue
 
@@ -273,6 +275,8 @@ def visit(
                         if isinstance(result, Node):
                             node = result
                         else:
+                            if not stack:
+                                break
                             path_pop()
                             continue
             else:
